@@ -223,7 +223,7 @@ func vfHas(mode string, letter byte) bool { return strings.IndexByte(mode, lette
 func vfAclExec(alphabet []vfAclOp) func(hist []int, last bool) vfXResult {
 	return func(hist []int, last bool) vfXResult {
 		var res vfXResult
-		t := vfBuildTW(vfTWOpts{Users: 4, PreSub: []int{1}, Admin: []int{1}, Boot: vfBootOpts{MaxSubscribers: vfAclMaxSubs}})
+		t := vfBuildTW(vfTWOpts{Users: 4, PreSub: []int{1}, Admin: []int{1}, Former: []int{3}, Boot: vfBootOpts{MaxSubscribers: vfAclMaxSubs}})
 		for _, c := range t.cl {
 			c.mark = len(c.frames)
 		}
